@@ -430,16 +430,35 @@ func (s *sim) settle() {
 			s.tracef("unsettled(decisions=%d wake=%d ret=%d entries=%d)", s.pendingDecisions(), s.expWake, len(s.expRet), s.wantEntries())
 			s.expWake = 0
 			s.lostWakeupCheck()
+			s.idleConsumerCheck()
 			return
 		}
 	}
-	for {
+	s.pump()
+}
+
+// idleConsumerCheck — "every accepted request is handed to a consumer": an accepted request must not sit
+// in the queue while a consumer is idle. Called when an expected hand-off did not arrive within the settle
+// wait; the verdict waits for the hand-off under a generous fixed bound and reports the blocked frames.
+func (s *sim) idleConsumerCheck() {
+	if s.wantEntries() == 0 || s.pendingDecisions() > 0 || s.failed || s.drain {
+		return
+	}
+	t := time.NewTimer(15 * time.Second)
+	defer t.Stop()
+	for s.wantEntries() > 0 {
 		select {
 		case ev := <-s.ev:
 			s.handle(ev)
 		case e := <-s.r.entered:
 			s.handle(event{kind: "entry", e: e})
-		default:
+		case <-t.C:
+			var ids []string
+			for _, q := range s.queue {
+				ids = append(ids, q.id)
+			}
+			fr := driver.BlockedRepoFrames(goroutineDump())
+			s.violation("never-handed", fmt.Sprintf("accepted requests %v stay in the queue although %d of %d consumers are idle; blocked frames: %s", ids, s.free(), s.cfg.Consumers, strings.Join(fr, "; ")), "what", "idle-consumer")
 			return
 		}
 	}
@@ -546,6 +565,51 @@ func (s *sim) offer(p *prod) {
 	go func() {
 		err := s.r.exp.ConsumeLogs(hc, ld)
 		s.ev <- event{kind: "ret", p: p, err: err}
+	}()
+}
+
+// offerBurst issues several offers that all fit together back to back, without letting the queue settle
+// in between: from one goroutine when Consume returns at once, from one goroutine each with wait_for_result.
+func (s *sim) offerBurst(ps []*prod) {
+	type call struct {
+		p  *prod
+		hc hookCtx
+	}
+	var calls []call
+	for _, p := range ps {
+		p := p
+		s.prods = append(s.prods, p)
+		if !p.bare {
+			s.byID[p.id] = p
+		}
+		p.state = "started"
+		p.pred = "accept"
+		ctx, cancel := context.WithCancel(context.Background())
+		p.cancel = cancel
+		calls = append(calls, call{p, hookCtx{Context: ctx, onDone: func(space bool) {
+			k := "park-result"
+			if space {
+				k = "park-space"
+			}
+			s.ev <- event{kind: k, p: p}
+		}}})
+	}
+	if s.cfg.WFR {
+		for _, cl := range calls {
+			cl := cl
+			ld := mkReq(cl.p.id, cl.p.items, cl.p.pad, cl.p.bare)
+			go func() {
+				err := s.r.exp.ConsumeLogs(cl.hc, ld)
+				s.ev <- event{kind: "ret", p: cl.p, err: err}
+			}()
+		}
+		return
+	}
+	go func() {
+		for _, cl := range calls {
+			err := s.r.exp.ConsumeLogs(cl.hc, mkReq(cl.p.id, cl.p.items, cl.p.pad, cl.p.bare))
+			s.ev <- event{kind: "ret", p: cl.p, err: err}
+		}
 	}()
 }
 
@@ -665,6 +729,37 @@ func runL1(c *driver.Ctx, rng *rand.Rand, caseNo int64) {
 			s.settle()
 			s.soleWaiterCheck()
 			s.checkGauges("complete")
+		case x >= 88 && len(parked) == 0:
+			// burst: 2-4 requests that fit together, offered back to back
+			var ps []*prod
+			if s.cfg.Persistent {
+				s.gaugeBefore, _ = s.r.size()
+			}
+			room := s.cfg.Capacity - s.refSize()
+			for k := 2 + rng.Intn(3); k > 0; k-- {
+				p := s.newProd(rng)
+				p.n += len(ps)
+				p.id = fmt.Sprintf("r%d", len(s.prods)+len(ps))
+				p.size = sizeOf(s.cfg.Sizer, mkReq(p.id, p.items, p.pad, p.bare))
+				if p.size <= 0 || p.size > room {
+					continue
+				}
+				room -= p.size
+				ps = append(ps, p)
+			}
+			if len(ps) < 2 {
+				continue
+			}
+			var ids []string
+			for _, p := range ps {
+				ids = append(ids, p.id)
+			}
+			s.tracef("burst(%s)", strings.Join(ids, ","))
+			nontrivial = true
+			s.stats["burst"]++
+			s.offerBurst(ps)
+			s.settle()
+			s.checkGauges("burst")
 		default:
 			if len(parked) >= 6 {
 				continue
